@@ -29,7 +29,7 @@ ASSUMPTIONS = [
     "dedicated shard",
 ]
 GATES = {
-    "bilateral_clamped_by_image": 1, "step_gt_1_with_a_suffixed_matching_cost_and_a_filter": 2, "margin_parameter_left_to_its_default": 5, "bilateral_default_after_an_explicit_sigma_space": 2,
+    "bilateral_clamped_by_image": 1, "optimisation_step_with_a_geometric_prior": 3, "step_gt_1_with_a_suffixed_matching_cost_and_a_filter": 2, "margin_parameter_left_to_its_default": 5, "bilateral_default_after_an_explicit_sigma_space": 2,
     "noncumulative_dominates": 1,
     "cumulative_dominates": 1,
     "step_gt_1": 1,
@@ -161,6 +161,11 @@ def draw_params(rng, keys, shape):
                                       "quantile_regularization": float(rng.choice([0.9, 1.0]))})
         elif kind == "refinement":
             params[k] = {"refinement_method": ["vfit", "quadratic"][int(rng.integers(0, 2))]}
+        elif kind == "optimization":
+            # the optional geometric prior of the optimisation step (plugins read it; the machine checks its inputs)
+            gp = [None, None, {"source": "internal"}, {"source": "internal"}][int(rng.integers(0, 4))]
+            if gp:
+                params[k] = {"geometric_prior": gp}
     return params
 
 
@@ -209,6 +214,7 @@ def _check_margins(ctx, case, keys, pipe, shape, step=1, validation_compare=True
     m.check_conf({"pipeline": copy.deepcopy(pipe)}, ml, mr)
     got = m.margins.to_dict()
     completed = documented({k: pipe[k] for k in keys})
+    ctx.gate("optimisation_step_with_a_geometric_prior", int(any("geometric_prior" in pipe[k] for k in keys)))
     ctx.gate("margin_parameter_left_to_its_default", int(any(
         ("window_size" not in pipe[k] and pipes.kind_of(k) == "matching_cost") or
         (pipes.kind_of(k) == "filter" and not ({"filter_size", "sigma_space"} & set(pipe[k]))) for k in keys)))
